@@ -214,6 +214,23 @@ def run_bcast(shard, res):
             if not np.allclose(np.asarray(va, dtype=float), np.asarray(vb, dtype=float), rtol=1e-9, atol=1e-12) or np.shape(va) != np.shape(vb):
                 res.violate(violation(f'bcast:{opdesc}', f'Algebra{tuple(shard["alg"])} {opdesc} shape {shape} {shard["cont"]}: op(X,Y)[{ix!r}] != op(X[{ix!r}],Y[{ix!r}]) on blade {k}', case, str(vb)[:200], str(va)[:200]))
                 return
+    # shape of a slice (the parent's shape and itermv() are looked at first: nothing cached on the parent may leak into the slice)
+    X.shape
+    list(X.itermv())[:1]
+    for ix in idxs:
+        res.evals += 1
+        sel = ix if isinstance(ix, tuple) else (ix,)
+        want_shape = (len(kx),) + ax[(slice(None),) + sel].shape[1:]
+        try:
+            got_shape = tuple(X[ix].shape)
+            n_items = len(list(X[ix].itermv())) if len(want_shape) > 1 else 1
+            want_items = int(np.prod(want_shape[1:])) if len(want_shape) > 1 else 1
+        except Exception as e:
+            res.violate(violation('slice-shape:raises', f'Algebra{tuple(shard["alg"])} X[{ix!r}].shape / itermv() ({shard["cont"]}, shape {shape}): {type(e).__name__}: {e}', case, str(want_shape), repr(e)))
+            continue
+        if got_shape != want_shape or n_items != want_items:
+            res.violate(violation('slice-shape', f'Algebra{tuple(shard["alg"])} X[{ix!r}] ({shard["cont"]}, shape {shape}) reports shape {got_shape} and yields {n_items} multivectors', case,
+                                  f'{want_shape}, {want_items} multivectors', f'{got_shape}, {n_items}'))
     for m in METHODS:
         try:
             whole = getattr(X, m)(Y)
